@@ -161,6 +161,9 @@ def step(rec, obj, op, arg, sig, state):
     name = op.split(":", 1)[-1]
     before = None
     verts_before = np.array(obj.vertices) if hasattr(type(obj), "vertices") else None
+    params_before = None
+    if verts_before is None and op == "to_hoomd":
+        params_before = [np.array(obj.centroid, dtype=float)] + [float(getattr(obj, k)) for k in ("radius", "a", "b", "c") if hasattr(obj, k)]
 
     def unchanged(what):
         after = observe.canonical(observe.observe(obj))
@@ -308,6 +311,11 @@ def step(rec, obj, op, arg, sig, state):
     if op == "to_hoomd" and verts_before is not None:
         va = np.asarray(obj.vertices)
         rec.close("to_hoomd_leaves_vertices", va, verts_before, 1e-12 * maxnorm(verts_before), dict(sig, op=op))
+    if params_before is not None:
+        # an export: where the shape is and how large it is are the same afterwards (C16 says so for every observable)
+        after = [np.array(obj.centroid, dtype=float)] + [float(getattr(obj, k)) for k in ("radius", "a", "b", "c") if hasattr(obj, k)]
+        rec.close("to_hoomd_leaves_centre", after[0], params_before[0], 1e-12 * (np.linalg.norm(params_before[0]) + max(params_before[1:])), dict(sig, op=op))
+        rec.close("to_hoomd_leaves_parameters", after[1:], params_before[1:], 1e-12 * max(params_before[1:]), dict(sig, op=op))
     return True, op != "to_hoomd"
 
 
